@@ -1,10 +1,6 @@
 import Cherab.Model.Rates
-import Mathlib.Tactic.Ring
-import Mathlib.Tactic.Linarith
-import Mathlib.Tactic.FieldSimp
-import Mathlib.Tactic.Positivity
-import Mathlib.Algebra.Order.Field.Basic
-import Mathlib.Data.List.Pairwise
+import Cherab.Lemmas.Rates
+
 
 /-!
 # C07 — OpenADAS rates reproduce stored tables and honour the range / missing-data policy
@@ -21,89 +17,9 @@ open Cherab.Rates
 
 variable {α : Type} [Field α] [LinearOrder α] [IsStrictOrderedRing α]
 
-/-- strictly increasing knots (raysect rejects anything else) -/
-def Sorted (xs : List α) : Prop := xs.Pairwise (· < ·)
-
-/-- `p` lies below the first / above the last knot -/
-def Below (xs : List α) (p : α) : Prop := ∃ a ∈ xs.head?, p < a
-def Above (xs : List α) (p : α) : Prop := ∃ b ∈ xs.getLast?, b < p
-def Within (xs : List α) (p : α) : Prop := (∀ a ∈ xs.head?, a ≤ p) ∧ (∀ b ∈ xs.getLast?, p ≤ b)
-
-def Valid1 (xs fs : List α) : Prop := 2 ≤ xs.length ∧ fs.length = xs.length ∧ Sorted xs
-def Valid2 (xs ys : List α) (f : List (List α)) : Prop :=
-  2 ≤ xs.length ∧ 2 ≤ ys.length ∧ Sorted xs ∧ Sorted ys ∧ f.length = xs.length ∧ ∀ r ∈ f, r.length = ys.length
-def Valid3 (xs ys zs : List α) (f : List (List (List α))) : Prop :=
-  2 ≤ xs.length ∧ 2 ≤ ys.length ∧ 2 ≤ zs.length ∧ Sorted xs ∧ Sorted ys ∧ Sorted zs ∧ f.length = xs.length ∧
-    (∀ pl ∈ f, pl.length = ys.length) ∧ ∀ pl ∈ f, ∀ r ∈ pl, r.length = zs.length
-
-/-- contract of the external functions.  Nothing is assumed about values *between* knots (raysect's cubic). -/
-structure ExtSpec (E : Ext α) : Prop where
-  pow_log : ∀ y, 0 < y → E.pow10 (E.logc y) = y
-  pow_pos : ∀ x, 0 < E.pow10 x
-  pow_add : ∀ a b, E.pow10 (a + b) = E.pow10 a * E.pow10 b
-  logc_mono : ∀ x y, 0 < x → x < y → E.logc x < E.logc y
-  i1_knot : ∀ (k : Extrap) (xs fs : List α) (i : Nat) (x v : α), Valid1 xs fs → xs[i]? = some x → fs[i]? = some v → E.i1 k xs fs x = some v
-  i1_within : ∀ (k : Extrap) (xs fs : List α) (p : α), Valid1 xs fs → Within xs p → (E.i1 k xs fs p).isSome
-  i1_outside : ∀ (xs fs : List α) (p : α), Valid1 xs fs → Below xs p ∨ Above xs p → E.i1 Extrap.none xs fs p = none
-  i1_extrap : ∀ (k : Extrap) (xs fs : List α) (p : α), Valid1 xs fs → k ≠ Extrap.none → (E.i1 k xs fs p).isSome
-  i2_knot : ∀ (k : Extrap) (xs ys : List α) (f : List (List α)) (i j : Nat) (x y : α) (row : List α) (v : α), Valid2 xs ys f → xs[i]? = some x → ys[j]? = some y → f[i]? = some row →
-    row[j]? = some v → E.i2 k xs ys f x y = some v
-  i2_within : ∀ (k : Extrap) (xs ys : List α) (f : List (List α)) (p q : α), Valid2 xs ys f → Within xs p → Within ys q → (E.i2 k xs ys f p q).isSome
-  i2_outside : ∀ (xs ys : List α) (f : List (List α)) (p q : α), Valid2 xs ys f → Below xs p ∨ Above xs p ∨ Below ys q ∨ Above ys q →
-    E.i2 Extrap.none xs ys f p q = none
-  i2_extrap : ∀ (k : Extrap) (xs ys : List α) (f : List (List α)) (p q : α), Valid2 xs ys f → k ≠ Extrap.none → (E.i2 k xs ys f p q).isSome
-  i3_knot : ∀ (k : Extrap) (xs ys zs : List α) (f : List (List (List α))) (i j l : Nat) (x y z : α)
-    (pl : List (List α)) (row : List α) (v : α), Valid3 xs ys zs f → xs[i]? = some x → ys[j]? = some y →
-    zs[l]? = some z → f[i]? = some pl → pl[j]? = some row → row[l]? = some v → E.i3 k xs ys zs f x y z = some v
-  i3_within : ∀ (k : Extrap) (xs ys zs : List α) (f : List (List (List α))) (p q r : α), Valid3 xs ys zs f → Within xs p → Within ys q → Within zs r →
-    (E.i3 k xs ys zs f p q r).isSome
-  i3_outside : ∀ (xs ys zs : List α) (f : List (List (List α))) (p q r : α), Valid3 xs ys zs f →
-    Below xs p ∨ Above xs p ∨ Below ys q ∨ Above ys q ∨ Below zs r ∨ Above zs r →
-    E.i3 Extrap.none xs ys zs f p q r = none
-  i3_extrap : ∀ (k : Extrap) (xs ys zs : List α) (f : List (List (List α))) (p q r : α), Valid3 xs ys zs f → k ≠ Extrap.none → (E.i3 k xs ys zs f p q r).isSome
-
-/-- positive, strictly increasing axis -/
-def Axis (xs : List α) : Prop := Sorted xs ∧ ∀ x ∈ xs, 0 < x
-
-theorem sorted_map_logc {E : Ext α} (S : ExtSpec E) {xs : List α} (h : Axis xs) : Sorted (xs.map E.logc) := by
-  unfold Sorted
-  rw [List.pairwise_map]
-  exact h.1.imp_of_mem fun {a b} ha hb hab => S.logc_mono a b (h.2 a ha) hab
-
-theorem head_map_logc (E : Ext α) (xs : List α) : (xs.map E.logc).head? = xs.head?.map E.logc := by
-  cases xs <;> simp
-
-theorem getLast_map_logc (E : Ext α) (xs : List α) : (xs.map E.logc).getLast? = xs.getLast?.map E.logc := by
-  simp [List.getLast?_map]
 
 /-! ## 2-D log-log classes -/
 
-/-- a well-formed table: what `repository.update_*` accepts plus raysect's monotonicity and the property's
-"positive rate tables" -/
-structure WF2 (t : Table2 α) : Prop where
-  ne : Axis t.ne
-  te : Axis t.te
-  rows : t.rate.length = t.ne.length
-  cols : ∀ r ∈ t.rate, r.length = t.te.length
-  pos : ∀ r ∈ t.rate, ∀ y ∈ r, 0 < y
-
-theorem conv_pos (cf : α) (wl : Option α) (hcf : 0 < cf) (hwl : ∀ w ∈ wl, 0 < w) (y : α) (hy : 0 < y) :
-    0 < conv cf wl y := by
-  unfold conv
-  cases wl with
-  | none => simpa using hy
-  | some w =>
-    have hw : 0 < w := hwl w rfl
-    simp only [photonToJ]
-    positivity
-
-theorem valid2_of_wf {E : Ext α} (S : ExtSpec E) {t : Table2 α} (h : WF2 t) (g : α → α)
-    (h1 : 2 ≤ t.ne.length) (h2 : 2 ≤ t.te.length) :
-    Valid2 (t.ne.map E.logc) (t.te.map E.logc) (t.rate.map fun row => row.map g) := by
-  refine ⟨by simpa using h1, by simpa using h2, sorted_map_logc S h.ne, sorted_map_logc S h.te, by simpa using h.rows, ?_⟩
-  intro r hr
-  obtain ⟨r', hr', rfl⟩ := List.mem_map.mp hr
-  simpa using h.cols r' hr'
 
 /-- **table reproduction** (2-D classes): at a grid point the rate equals the stored value after the unit
 conversion — provided the two `log10`s agree on that grid point's coordinates (see `grid2_edge_knot_raises`). -/
@@ -123,8 +39,6 @@ theorem grid2_at_knot {E : Ext α} (S : ExtSpec E) (cf : α) (wl : Option α) (h
   simp only
   rw [S.pow_log _ (conv_pos cf wl hcf hwl y hypos)]
 
-/-- the two `log10`s agree (true of real numbers; **not** of NumPy's SIMD `log10` vs libm's `log10`) -/
-def LogAgree (E : Ext α) : Prop := ∀ x, 0 < x → E.loge x = E.logc x
 
 theorem grid2_at_knot' {E : Ext α} (S : ExtSpec E) (hl : LogAgree E) (cf : α) (wl : Option α) (hcf : 0 < cf)
     (hwl : ∀ w ∈ wl, 0 < w) (k : Extrap) (ex : Bool) (t : Table2 α) (h : WF2 t) (h1 : 2 ≤ t.ne.length)
@@ -133,6 +47,7 @@ theorem grid2_at_knot' {E : Ext α} (S : ExtSpec E) (hl : LogAgree E) (cf : α) 
     grid2 E cf wl k ex t n T = Out.val (conv cf wl y) :=
   grid2_at_knot S cf wl hcf hwl k ex t h h1 h2 i j n T y row hn hT hrow hy
     (hl n (h.ne.2 n (List.mem_of_getElem? hn))) (hl T (h.te.2 T (List.mem_of_getElem? hT)))
+
 
 /-- **non-negativity**, for every table (well-formed or not) and all arguments -/
 theorem grid2_nonneg {E : Ext α} (S : ExtSpec E) (cf : α) (wl : Option α) (k : Extrap) (ex : Bool) (t : Table2 α)
@@ -144,6 +59,7 @@ theorem grid2_nonneg {E : Ext α} (S : ExtSpec E) (cf : α) (wl : Option α) (k 
     · cases h; exact (S.pow_pos _).le
     · cases h
 
+
 /-- **zero on a non-positive density or temperature** (whenever the object could be constructed) -/
 theorem grid2_zero_on_nonpositive (E : Ext α) (cf : α) (wl : Option α) (k : Extrap) (ex : Bool) (t : Table2 α)
     (h1 : 2 ≤ t.ne.length) (h2 : 2 ≤ t.te.length) (d T : α) (h : d ≤ 0 ∨ T ≤ 0) :
@@ -151,11 +67,13 @@ theorem grid2_zero_on_nonpositive (E : Ext α) (cf : α) (wl : Option α) (k : E
   unfold grid2
   rw [if_neg (by omega), if_pos h]
 
+
 /-- raysect refuses a single-point axis: the accessor raises ValueError instead of returning a rate object -/
 theorem grid2_single_point_axis (E : Ext α) (cf : α) (wl : Option α) (k : Extrap) (ex : Bool) (t : Table2 α)
     (h : t.ne.length < 2 ∨ t.te.length < 2) (d T : α) : grid2 E cf wl k ex t d T = Out.ctorError := by
   unfold grid2
   rw [if_pos h]
+
 
 /-- **range policy, extrapolation not permitted**: outside the tabulated range (in the log space the code compares
 in) the call raises -/
@@ -169,6 +87,7 @@ theorem grid2_outside_raises {E : Ext α} (S : ExtSpec E) (cf : α) (wl : Option
   have : kindOf k false = Extrap.none := rfl
   rw [this, S.i2_outside _ _ _ _ _ (valid2_of_wf S h _ h1 h2) hout]
 
+
 /-- the same in terms of the raw arguments when the two `log10`s agree -/
 theorem grid2_below_density_range_raises {E : Ext α} (S : ExtSpec E) (hl : LogAgree E) (cf : α) (wl : Option α)
     (k : Extrap) (t : Table2 α) (h : WF2 t) (h1 : 2 ≤ t.ne.length) (h2 : 2 ≤ t.te.length) (d T n0 : α)
@@ -179,6 +98,7 @@ theorem grid2_below_density_range_raises {E : Ext α} (S : ExtSpec E) (hl : LogA
   refine ⟨E.logc n0, ?_, ?_⟩
   · rw [head_map_logc, hn0]; rfl
   · rw [hl d hd]; exact S.logc_mono d n0 hd hlt
+
 
 theorem grid2_above_temperature_range_raises {E : Ext α} (S : ExtSpec E) (hl : LogAgree E) (cf : α) (wl : Option α)
     (k : Extrap) (t : Table2 α) (h : WF2 t) (h1 : 2 ≤ t.ne.length) (h2 : 2 ≤ t.te.length) (d T T1 : α)
@@ -191,6 +111,7 @@ theorem grid2_above_temperature_range_raises {E : Ext α} (S : ExtSpec E) (hl : 
   · rw [hl T hT]
     exact S.logc_mono T1 T (h.te.2 T1 (List.mem_of_getLast? hT1)) hlt
 
+
 /-- **the float gap, as a theorem about the model**: if libm's `log10` of the lowest tabulated density is smaller
 than NumPy's (1 ulp suffices), evaluating *at that grid point* raises instead of reproducing the table.  This is
 the behaviour of the unchanged tree (finding C07:grid-point:edge-knot-raises). -/
@@ -201,6 +122,7 @@ theorem grid2_edge_knot_raises {E : Ext α} (S : ExtSpec E) (cf : α) (wl : Opti
   apply grid2_outside_raises S cf wl k t h h1 h2 n0 T (h.ne.2 n0 (List.mem_of_head? hn0)) hT
   left
   exact ⟨E.logc n0, by rw [head_map_logc, hn0]; rfl, hgap⟩
+
 
 /-- **range policy, extrapolation permitted**: every positive argument pair yields a (positive) value -/
 theorem grid2_extrapolated_returns {E : Ext α} (S : ExtSpec E) (cf : α) (wl : Option α) (k : Extrap)
@@ -215,6 +137,7 @@ theorem grid2_extrapolated_returns {E : Ext α} (S : ExtSpec E) (cf : α) (wl : 
   rw [hv]
   exact ⟨_, S.pow_pos v, rfl⟩
 
+
 /-- inside the tabulated range a value is returned whatever the extrapolation setting -/
 theorem grid2_within_returns {E : Ext α} (S : ExtSpec E) (cf : α) (wl : Option α) (k : Extrap) (ex : Bool)
     (t : Table2 α) (h : WF2 t) (h1 : 2 ≤ t.ne.length) (h2 : 2 ≤ t.te.length) (d T : α) (hd : 0 < d) (hT : 0 < T)
@@ -228,11 +151,14 @@ theorem grid2_within_returns {E : Ext α} (S : ExtSpec E) (cf : α) (wl : Option
   rw [hv]
   exact ⟨_, S.pow_pos v, rfl⟩
 
+
 /-- **documented unit conversion** of the photon emission coefficients: `x ↦ x · (hc·10⁹) / λ` -/
 theorem conv_photon (cf w x : α) : conv cf (some w) x = x * cf / w := by
   simp only [conv, photonToJ]; ring
 
+
 theorem conv_plain (cf x : α) : conv cf none x = x := rfl
+
 
 /-- a different wavelength gives a different converted value: the species whose wavelength is used matters -/
 theorem conv_photon_injective_in_wavelength (cf w w' x : α) (hcf : 0 < cf) (hx : 0 < x) (hw : 0 < w) (hw' : 0 < w')
@@ -242,4 +168,693 @@ theorem conv_photon_injective_in_wavelength (cf w w' x : α) (hcf : 0 < cf) (hx 
   field_simp at h
   linarith [h]
 
+
+/-! ## ThermalCXPEC (3-D) -/
+
+
+/-- **table reproduction** (ThermalCXPEC) -/
+theorem grid3_at_knot {E : Ext α} (S : ExtSpec E) (cf wl : α) (hcf : 0 < cf) (hwl : 0 < wl) (ex : Bool)
+    (t : Table3 α) (h : WF3 t) (h1 : 2 ≤ t.ne.length) (h2 : 2 ≤ t.te.length) (h3 : 2 ≤ t.td.length)
+    (i j l : Nat) (n T D y : α) (pl : List (List α)) (row : List α)
+    (hn : t.ne[i]? = some n) (hT : t.te[j]? = some T) (hD : t.td[l]? = some D)
+    (hpl : t.rate[i]? = some pl) (hrow : pl[j]? = some row) (hy : row[l]? = some y)
+    (hln : E.loge n = E.logc n) (hlT : E.loge T = E.logc T) (hlD : E.loge D = E.logc D) :
+    grid3 E cf wl ex t n T D = Out.val (photonToJ cf y wl) := by
+  have hnpos : 0 < n := h.ne.2 n (List.mem_of_getElem? hn)
+  have hTpos : 0 < T := h.te.2 T (List.mem_of_getElem? hT)
+  have hDpos : 0 < D := h.td.2 D (List.mem_of_getElem? hD)
+  have hypos : 0 < y := h.pos pl (List.mem_of_getElem? hpl) row (List.mem_of_getElem? hrow) y (List.mem_of_getElem? hy)
+  unfold grid3
+  rw [if_neg (by omega), if_neg (by push Not; exact ⟨hnpos, hTpos, hDpos⟩), hln, hlT, hlD]
+  rw [S.i3_knot _ _ _ _ _ i j l (E.logc n) (E.logc T) (E.logc D)
+    (pl.map fun row => row.map fun y => E.logc (photonToJ cf y wl)) (row.map fun y => E.logc (photonToJ cf y wl))
+    (E.logc (photonToJ cf y wl)) (valid3_of_wf S h _ h1 h2 h3) (by simp [hn]) (by simp [hT]) (by simp [hD])
+    (by simp [hpl]) (by simp [hrow]) (by simp [hy])]
+  simp only
+  rw [S.pow_log]
+  simp only [photonToJ]; positivity
+
+
+theorem grid3_nonneg {E : Ext α} (S : ExtSpec E) (cf wl : α) (ex : Bool) (t : Table3 α) (d T D v : α)
+    (h : grid3 E cf wl ex t d T D = Out.val v) : 0 ≤ v := by
+  unfold grid3 at h
+  split_ifs at h with h1 h2
+  · cases h; exact le_refl _
+  · split at h
+    · cases h; exact (S.pow_pos _).le
+    · cases h
+
+
+theorem grid3_zero_on_nonpositive (E : Ext α) (cf wl : α) (ex : Bool) (t : Table3 α) (h1 : 2 ≤ t.ne.length)
+    (h2 : 2 ≤ t.te.length) (h3 : 2 ≤ t.td.length) (d T D : α) (h : d ≤ 0 ∨ T ≤ 0 ∨ D ≤ 0) :
+    grid3 E cf wl ex t d T D = Out.val 0 := by
+  unfold grid3
+  rw [if_neg (by omega), if_pos h]
+
+
+theorem grid3_outside_raises {E : Ext α} (S : ExtSpec E) (cf wl : α) (t : Table3 α) (h : WF3 t)
+    (h1 : 2 ≤ t.ne.length) (h2 : 2 ≤ t.te.length) (h3 : 2 ≤ t.td.length) (d T D : α) (hd : 0 < d) (hT : 0 < T)
+    (hD : 0 < D)
+    (hout : Below (t.ne.map E.logc) (E.loge d) ∨ Above (t.ne.map E.logc) (E.loge d) ∨
+      Below (t.te.map E.logc) (E.loge T) ∨ Above (t.te.map E.logc) (E.loge T) ∨
+      Below (t.td.map E.logc) (E.loge D) ∨ Above (t.td.map E.logc) (E.loge D)) :
+    grid3 E cf wl false t d T D = Out.valueError := by
+  unfold grid3
+  rw [if_neg (by omega), if_neg (by push Not; exact ⟨hd, hT, hD⟩)]
+  have : kindOf Extrap.nearest false = Extrap.none := rfl
+  rw [this, S.i3_outside _ _ _ _ _ _ _ (valid3_of_wf S h _ h1 h2 h3) hout]
+
+
+theorem grid3_extrapolated_returns {E : Ext α} (S : ExtSpec E) (cf wl : α) (t : Table3 α) (h : WF3 t)
+    (h1 : 2 ≤ t.ne.length) (h2 : 2 ≤ t.te.length) (h3 : 2 ≤ t.td.length) (d T D : α) (hd : 0 < d) (hT : 0 < T)
+    (hD : 0 < D) : ∃ v, 0 < v ∧ grid3 E cf wl true t d T D = Out.val v := by
+  unfold grid3
+  rw [if_neg (by omega), if_neg (by push Not; exact ⟨hd, hT, hD⟩)]
+  have := S.i3_extrap (kindOf Extrap.nearest true) _ _ _ _ (E.loge d) (E.loge T) (E.loge D) (valid3_of_wf S h
+    (fun y => E.logc (photonToJ cf y wl)) h1 h2 h3) (by decide)
+  obtain ⟨v, hv⟩ := Option.isSome_iff_exists.mp this
+  rw [hv]
+  exact ⟨_, S.pow_pos v, rfl⟩
+
+
+/-! ## Null rates -/
+
+
+/-- every Null class evaluates to zero, whatever the arguments -/
+theorem null_rate_zero : (nullRate : Out α) = Out.val 0 := rfl
+
+
+/-! ## beam stopping / population / emission -/
+
+
+/-- the energy–density factor at a grid point, through whichever of the four constructions `__init__` chose -/
+theorem beamNpl_at_knot {E : Ext α} (S : ExtSpec E) (cf : α) (wl : Option α) (ex : Bool) (b : BeamTable α)
+    (h : WFB b) (i j : Nat) (en d y : α) (row : List α) (he : b.e[i]? = some en) (hn : b.n[j]? = some d)
+    (hrow : b.sen[i]? = some row) (hy : row[j]? = some y) (hle : E.loge en = E.logc en)
+    (hld : E.loge d = E.logc d) :
+    beamNpl E cf wl ex b en d = some (E.logc (conv cf wl y)) := by
+  have hrowlen : row.length = b.n.length := h.cols row (List.mem_of_getElem? hrow)
+  have hmaprow : (b.logSen E cf wl)[i]? = some (row.map fun y => E.logc (conv cf wl y)) := by
+    simp [BeamTable.logSen, hrow]
+  unfold beamNpl
+  simp only []
+  split_ifs with c1 c2 c3
+  · -- Constant2D
+    simp only [Bool.and_eq_true, beq_iff_eq] at c1
+    have hi := idx_zero_of_length_one he c1.1
+    have hj := idx_zero_of_length_one hn c1.2
+    subst hi; subst hj
+    rw [headD_of_getElem?_zero hmaprow]
+    exact congrArg some (headD_of_getElem?_zero (by simp [hy]))
+  · -- single energy: 1-D in density
+    simp only [beq_iff_eq] at c2
+    simp only [Bool.and_eq_true, beq_iff_eq, not_and] at c1
+    have hi := idx_zero_of_length_one he c2
+    subst hi
+    rw [headD_of_getElem?_zero hmaprow, hld]
+    have hn2 : 2 ≤ b.n.length := by have := h.n1; have := c1 c2; omega
+    exact S.i1_knot _ _ _ j _ _ ⟨by simpa using hn2, by simp [hrowlen], sorted_map_logc S h.n⟩ (by simp [hn])
+      (by simp [hy])
+  · -- single density: 1-D in energy
+    simp only [beq_iff_eq] at c2 c3
+    have hj := idx_zero_of_length_one hn c3
+    subst hj
+    rw [hle]
+    have he2 : 2 ≤ b.e.length := by have := h.e1; omega
+    refine S.i1_knot _ _ _ i _ _ ⟨by simpa using he2, by simp [BeamTable.logSen, h.rows], sorted_map_logc S h.e⟩
+      (by simp [he]) ?_
+    simp only [List.getElem?_map, hmaprow, Option.map_some]
+    exact congrArg some (headD_of_getElem?_zero (by simp [hy]))
+  · -- 2-D
+    simp only [beq_iff_eq] at c2 c3
+    rw [hle, hld]
+    have he2 : 2 ≤ b.e.length := by have := h.e1; omega
+    have hn2 : 2 ≤ b.n.length := by have := h.n1; omega
+    refine S.i2_knot _ _ _ _ i j _ _ (row.map fun y => E.logc (conv cf wl y)) _ ?_ (by simp [he]) (by simp [hn])
+      hmaprow (by simp [hy])
+    refine ⟨by simpa using he2, by simpa using hn2, sorted_map_logc S h.e, sorted_map_logc S h.n,
+      by simp [BeamTable.logSen, h.rows], ?_⟩
+    intro r hr
+    simp only [BeamTable.logSen] at hr
+    obtain ⟨r', hr', rfl⟩ := List.mem_map.mp hr
+    simpa using h.cols r' hr'
+
+
+/-- **table reproduction** (beam coefficients): `sen · st / sref` after the photon conversion of `sen`, for every
+combination of single-point / multi-point energy and density axes -/
+theorem beam_at_knot {E : Ext α} (S : ExtSpec E) (cf : α) (wl : Option α) (hcf : 0 < cf) (hwl : ∀ w ∈ wl, 0 < w)
+    (ex : Bool) (b : BeamTable α) (h : WFB b) (i j k : Nat) (en d T y s : α) (row : List α)
+    (he : b.e[i]? = some en) (hn : b.n[j]? = some d) (ht : b.t[k]? = some T)
+    (hrow : b.sen[i]? = some row) (hy : row[j]? = some y) (hs : b.st[k]? = some s)
+    (hle : E.loge en = E.logc en) (hld : E.loge d = E.logc d) (hlT : E.loge T = E.logc T) :
+    beam E cf wl ex b en d T = Out.val (conv cf wl y * s / b.sref) := by
+  have hepos : 0 < en := h.e.2 en (List.mem_of_getElem? he)
+  have hdpos : 0 < d := h.n.2 d (List.mem_of_getElem? hn)
+  have hTpos : 0 < T := h.t.2 T (List.mem_of_getElem? ht)
+  have hypos : 0 < y := h.pos row (List.mem_of_getElem? hrow) y (List.mem_of_getElem? hy)
+  have hspos : 0 < s := h.stpos s (List.mem_of_getElem? hs)
+  unfold beam
+  rw [beamCtorOk_of_wf h]
+  simp only [Bool.not_true, Bool.false_eq_true, if_false]
+  rw [if_neg (by push Not; exact ⟨hepos, hdpos, hTpos⟩)]
+  rw [beamNpl_at_knot S cf wl ex b h i j en d y row he hn hrow hy hle hld]
+  simp only []
+  rw [hlT, S.i1_knot _ _ _ k (E.logc T) (E.logc (s / b.sref)) (valid1_t S h) (by simp [ht])
+    (by simp [BeamTable.logSt, hs])]
+  simp only []
+  rw [S.pow_add, S.pow_log _ (conv_pos cf wl hcf hwl y hypos), S.pow_log _ (div_pos hspos h.sref)]
+  congr 1; ring
+
+
+theorem beam_nonneg {E : Ext α} (S : ExtSpec E) (cf : α) (wl : Option α) (ex : Bool) (b : BeamTable α)
+    (en d T v : α) (h : beam E cf wl ex b en d T = Out.val v) : 0 ≤ v := by
+  unfold beam at h
+  split_ifs at h with h1 h2
+  · cases h; exact le_refl _
+  · split at h
+    · cases h
+    · split at h
+      · cases h
+      · cases h; exact (S.pow_pos _).le
+
+
+theorem beam_zero_on_nonpositive (E : Ext α) (cf : α) (wl : Option α) (ex : Bool) (b : BeamTable α)
+    (hc : beamCtorOk b = true) (en d T : α) (h : en ≤ 0 ∨ d ≤ 0 ∨ T ≤ 0) :
+    beam E cf wl ex b en d T = Out.val 0 := by
+  unfold beam
+  rw [hc]
+  simp only [Bool.not_true, Bool.false_eq_true, if_false]
+  rw [if_pos h]
+
+
+/-- temperature outside the tabulated range, extrapolation not permitted: raises -/
+theorem beam_temperature_outside_raises {E : Ext α} (S : ExtSpec E) (cf : α) (wl : Option α) (b : BeamTable α)
+    (h : WFB b) (en d T : α) (he : 0 < en) (hd : 0 < d) (hT : 0 < T)
+    (hout : Below (b.t.map E.logc) (E.loge T) ∨ Above (b.t.map E.logc) (E.loge T)) :
+    beam E cf wl false b en d T = Out.valueError := by
+  unfold beam
+  rw [beamCtorOk_of_wf h]
+  simp only [Bool.not_true, Bool.false_eq_true, if_false]
+  rw [if_neg (by push Not; exact ⟨he, hd, hT⟩)]
+  have hk : kindOf Extrap.quadratic false = Extrap.none := rfl
+  cases beamNpl E cf wl false b en d with
+  | none => rfl
+  | some a =>
+    simp only []
+    rw [hk, S.i1_outside _ _ _ (valid1_t S h) hout]
+
+
+/-- energy or density outside the tabulated range of a genuinely two-dimensional `sen`: raises -/
+theorem beam_energy_density_outside_raises {E : Ext α} (S : ExtSpec E) (cf : α) (wl : Option α) (b : BeamTable α)
+    (h : WFB b) (he2 : 2 ≤ b.e.length) (hn2 : 2 ≤ b.n.length) (en d T : α) (he : 0 < en) (hd : 0 < d) (hT : 0 < T)
+    (hout : Below (b.e.map E.logc) (E.loge en) ∨ Above (b.e.map E.logc) (E.loge en) ∨
+      Below (b.n.map E.logc) (E.loge d) ∨ Above (b.n.map E.logc) (E.loge d)) :
+    beam E cf wl false b en d T = Out.valueError := by
+  have hnpl : beamNpl E cf wl false b en d = none := by
+    unfold beamNpl
+    simp only []
+    rw [if_neg (by simp; omega), if_neg (by simp; omega), if_neg (by simp; omega)]
+    have hk : kindOf Extrap.linear false = Extrap.none := rfl
+    rw [hk]
+    apply S.i2_outside _ _ _ _ _ _ hout
+    refine ⟨by simpa using he2, by simpa using hn2, sorted_map_logc S h.e, sorted_map_logc S h.n,
+      by simp [BeamTable.logSen, h.rows], ?_⟩
+    intro r hr
+    simp only [BeamTable.logSen] at hr
+    obtain ⟨r', hr', rfl⟩ := List.mem_map.mp hr
+    simpa using h.cols r' hr'
+  unfold beam
+  rw [beamCtorOk_of_wf h]
+  simp only [Bool.not_true, Bool.false_eq_true, if_false]
+  rw [if_neg (by push Not; exact ⟨he, hd, hT⟩), hnpl]
+
+
+/-- a single-point energy *and* density axis tabulates no dependence: the factor ignores both arguments (there is
+no range to leave along such an axis) -/
+theorem beamNpl_single_point_constant (E : Ext α) (cf : α) (wl : Option α) (ex : Bool) (b : BeamTable α)
+    (he : b.e.length = 1) (hn : b.n.length = 1) (en d en' d' : α) :
+    beamNpl E cf wl ex b en d = beamNpl E cf wl ex b en' d' := by
+  unfold beamNpl
+  simp only []
+  rw [if_pos (by simp [he, hn]), if_pos (by simp [he, hn])]
+
+
+/-- **range policy, extrapolation permitted** (beam coefficients): never raises, returns a positive value -/
+theorem beam_extrapolated_returns {E : Ext α} (S : ExtSpec E) (cf : α) (wl : Option α) (b : BeamTable α)
+    (h : WFB b) (en d T : α) (he : 0 < en) (hd : 0 < d) (hT : 0 < T) :
+    ∃ v, 0 < v ∧ beam E cf wl true b en d T = Out.val v := by
+  have hcols : ∀ r ∈ b.logSen E cf wl, r.length = (b.n.map E.logc).length := by
+    intro r hr
+    simp only [BeamTable.logSen] at hr
+    obtain ⟨r', hr', rfl⟩ := List.mem_map.mp hr
+    simpa using h.cols r' hr'
+  have hnpl : (beamNpl E cf wl true b en d).isSome := by
+    unfold beamNpl
+    simp only []
+    split_ifs with c1 c2 c3
+    · rfl
+    · simp only [beq_iff_eq] at c2
+      simp only [Bool.and_eq_true, beq_iff_eq, not_and] at c1
+      have hn2 : 2 ≤ b.n.length := by have := h.n1; have := c1 c2; omega
+      refine S.i1_extrap _ _ _ _ ⟨by simpa using hn2, ?_, sorted_map_logc S h.n⟩ (by decide)
+      have hne : b.logSen E cf wl ≠ [] := by
+        intro h0
+        have : (b.logSen E cf wl).length = b.e.length := by simp [BeamTable.logSen, h.rows]
+        rw [h0] at this; simp at this; omega
+      obtain ⟨r, rs, hrs⟩ := List.exists_cons_of_ne_nil hne
+      rw [hrs]
+      simpa using hcols r (by rw [hrs]; simp)
+    · simp only [beq_iff_eq] at c2 c3
+      have he2 : 2 ≤ b.e.length := by have := h.e1; omega
+      exact S.i1_extrap _ _ _ _ ⟨by simpa using he2, by simp [BeamTable.logSen, h.rows], sorted_map_logc S h.e⟩
+        (by decide)
+    · simp only [beq_iff_eq] at c2 c3
+      have he2 : 2 ≤ b.e.length := by have := h.e1; omega
+      have hn2 : 2 ≤ b.n.length := by have := h.n1; omega
+      exact S.i2_extrap _ _ _ _ _ _ ⟨by simpa using he2, by simpa using hn2, sorted_map_logc S h.e,
+        sorted_map_logc S h.n, by simp [BeamTable.logSen, h.rows], hcols⟩ (by decide)
+  have htp := S.i1_extrap (kindOf Extrap.quadratic true) _ _ (E.loge T) (valid1_t S h) (by decide)
+  obtain ⟨a, ha⟩ := Option.isSome_iff_exists.mp hnpl
+  obtain ⟨c, hc⟩ := Option.isSome_iff_exists.mp htp
+  unfold beam
+  rw [beamCtorOk_of_wf h]
+  simp only [Bool.not_true, Bool.false_eq_true, if_false]
+  rw [if_neg (by push Not; exact ⟨he, hd, hT⟩), ha]
+  simp only []
+  rw [hc]
+  exact ⟨_, S.pow_pos _, rfl⟩
+
+
+/-! ## beam CX -/
+
+
+/-- **table reproduction** (beam CX): `qeb·hc/λ · qti/qref · qni/qref · qz/qref · qb/qref` at a grid point, whatever
+mixture of interpolated and single-point axes -/
+theorem beamCX_at_knot {E : Ext α} (S : ExtSpec E) (cf wl : α) (hcf : 0 < cf) (hwl : 0 < wl) (ex : Bool)
+    (c : CXTable α) (h : WFC c) (i1 i2 i3 i4 i5 : Nat) (en T d z bf qe qt qn qz qb : α)
+    (h1 : c.eb[i1]? = some en) (h2 : c.ti[i2]? = some T) (h3 : c.ni[i3]? = some d) (h4 : c.z[i4]? = some z)
+    (h5 : c.b[i5]? = some bf) (g1 : c.qeb[i1]? = some qe) (g2 : c.qti[i2]? = some qt) (g3 : c.qni[i3]? = some qn)
+    (g4 : c.qz[i4]? = some qz) (g5 : c.qb[i5]? = some qb) (hle : E.loge en = E.logc en) :
+    beamCX E cf wl ex c en T d z bf =
+      Out.val (photonToJ cf qe wl * (qt / c.qref) * (qn / c.qref) * (qz / c.qref) * (qb / c.qref)) := by
+  have henpos : 0 < en := h.eb.2 en (List.mem_of_getElem? h1)
+  have p1 : 0 < qe := h.pos.1 qe (List.mem_of_getElem? g1)
+  have p2 : 0 < qt := h.pos.2.1 qt (List.mem_of_getElem? g2)
+  have p3 : 0 < qn := h.pos.2.2.1 qn (List.mem_of_getElem? g3)
+  have p4 : 0 < qz := h.pos.2.2.2.1 qz (List.mem_of_getElem? g4)
+  have p5 : 0 < qb := h.pos.2.2.2.2 qb (List.mem_of_getElem? g5)
+  have hq := h.qref
+  have pj : 0 < photonToJ cf qe wl := by simp only [photonToJ]; positivity
+  unfold beamCX
+  simp only []
+  rw [if_neg (not_le.mpr henpos), hle]
+  rw [interpOrConst_at_knot S _ (c.eb.map E.logc) (c.qeb.map fun y => E.logc (photonToJ cf y wl)) i1 (E.logc en)
+    (E.logc (photonToJ cf qe wl)) (sorted_map_logc S h.eb) (by simp [h.leb.1]) (by simpa using h.leb.2)
+    (by simp [h1]) (by simp [g1])]
+  simp only []
+  rw [S.pow_log _ pj]
+  rw [interpOrConst_at_knot S _ c.ti (c.qti.map fun y => y / c.qref) i2 T (qt / c.qref) h.ti (by simp [h.lti.1])
+    h.lti.2 h2 (by simp [g2])]
+  simp only []
+  rw [clampMul_pos pj (div_pos p2 hq)]
+  simp only []
+  rw [interpOrConst_at_knot S _ c.ni (c.qni.map fun y => y / c.qref) i3 d (qn / c.qref) h.ni (by simp [h.lni.1])
+    h.lni.2 h3 (by simp [g3])]
+  simp only []
+  rw [clampMul_pos (mul_pos pj (div_pos p2 hq)) (div_pos p3 hq)]
+  simp only []
+  rw [interpOrConst_at_knot S _ c.z (c.qz.map fun y => y / c.qref) i4 z (qz / c.qref) h.z (by simp [h.lz.1])
+    h.lz.2 h4 (by simp [g4])]
+  simp only []
+  rw [clampMul_pos (mul_pos (mul_pos pj (div_pos p2 hq)) (div_pos p3 hq)) (div_pos p4 hq)]
+  simp only []
+  rw [interpOrConst_at_knot S _ c.b (c.qb.map fun y => y / c.qref) i5 bf (qb / c.qref) h.b (by simp [h.lb.1])
+    h.lb.2 h5 (by simp [g5])]
+  simp only []
+  rw [clampMul_pos (mul_pos (mul_pos (mul_pos pj (div_pos p2 hq)) (div_pos p3 hq)) (div_pos p4 hq)) (div_pos p5 hq)]
+
+
+/-- … which is the documented `q_eb·q_ti·q_ni·q_z·q_b / q_ref⁴`, converted with hc/λ -/
+theorem beamCX_documented_product (cf wl qe qt qn qz qb qref : α) (hq : qref ≠ 0) :
+    photonToJ cf qe wl * (qt / qref) * (qn / qref) * (qz / qref) * (qb / qref) =
+      photonToJ cf (qe * qt * qn * qz * qb / qref ^ 4) wl := by
+  simp only [photonToJ]
+  field_simp
+
+
+theorem beamCX_zero_on_nonpositive_energy (E : Ext α) (cf wl : α) (ex : Bool) (c : CXTable α)
+    (en T d z bf : α) (h : en ≤ 0) : beamCX E cf wl ex c en T d z bf = Out.val 0 := by
+  unfold beamCX
+  simp only []
+  rw [if_pos h]
+
+
+theorem beamCX_nonneg {E : Ext α} (S : ExtSpec E) (cf wl : α) (ex : Bool) (c : CXTable α) (en T d z bf v : α)
+    (h : beamCX E cf wl ex c en T d z bf = Out.val v) : 0 ≤ v := by
+  unfold beamCX at h
+  simp only [] at h
+  split_ifs at h with h0
+  · cases h; exact le_refl _
+  · repeat' split at h
+    all_goals first
+      | (cases h; done)
+      | (cases h; exact le_refl _)
+      | (cases h; exact (clampMul_some_pos ‹_›).le)
+
+
+/-- **the guard BeamCXPEC lacks** (finding C07:BeamCXPEC:nonpositive-…-not-zero): with single-point temperature /
+density / Z_eff / B axes (`Constant1D`) the rate does not look at those arguments at all — for a non-positive
+temperature or density it is the same *positive* number, not zero. -/
+theorem beamCX_single_point_ignores_arguments {E : Ext α} (S : ExtSpec E) (cf wl : α) (hcf : 0 < cf) (hwl : 0 < wl)
+    (ex : Bool) (c : CXTable α) (qe qt qn qz qb : α) (hqe : c.qeb = [qe]) (hqt : c.qti = [qt]) (hqn : c.qni = [qn])
+    (hqz : c.qz = [qz]) (hqb : c.qb = [qb]) (p1 : 0 < qe) (p2 : 0 < qt) (p3 : 0 < qn) (p4 : 0 < qz) (p5 : 0 < qb)
+    (hq : 0 < c.qref) (en : α) (hen : 0 < en) (T d z bf : α) :
+    beamCX E cf wl ex c en T d z bf =
+        Out.val (photonToJ cf qe wl * (qt / c.qref) * (qn / c.qref) * (qz / c.qref) * (qb / c.qref))
+      ∧ 0 < photonToJ cf qe wl * (qt / c.qref) * (qn / c.qref) * (qz / c.qref) * (qb / c.qref) := by
+  have pj : 0 < photonToJ cf qe wl := by simp only [photonToJ]; positivity
+  refine ⟨?_, by positivity⟩
+  unfold beamCX
+  simp only [interpOrConst, hqe, hqt, hqn, hqz, hqb, List.map_cons, List.map_nil, List.length_cons, List.length_nil,
+    Nat.zero_add, lt_self_iff_false, if_false, List.headD_cons]
+  rw [if_neg (not_le.mpr hen)]
+  try simp only []
+  rw [S.pow_log _ pj, clampMul_pos pj (div_pos p2 hq)]
+  try simp only []
+  rw [clampMul_pos (mul_pos pj (div_pos p2 hq)) (div_pos p3 hq)]
+  try simp only []
+  rw [clampMul_pos (mul_pos (mul_pos pj (div_pos p2 hq)) (div_pos p3 hq)) (div_pos p4 hq)]
+  try simp only []
+  rw [clampMul_pos (mul_pos (mul_pos (mul_pos pj (div_pos p2 hq)) (div_pos p3 hq)) (div_pos p4 hq)) (div_pos p5 hq)]
+
+
+/-- the negation of "zero on a non-positive temperature" on the model of the code as it is -/
+theorem beamCX_not_zero_on_nonpositive_temperature {E : Ext α} (S : ExtSpec E) (cf wl : α) (hcf : 0 < cf)
+    (hwl : 0 < wl) (ex : Bool) (c : CXTable α) (qe qt qn qz qb : α) (hqe : c.qeb = [qe]) (hqt : c.qti = [qt])
+    (hqn : c.qni = [qn]) (hqz : c.qz = [qz]) (hqb : c.qb = [qb]) (p1 : 0 < qe) (p2 : 0 < qt) (p3 : 0 < qn)
+    (p4 : 0 < qz) (p5 : 0 < qb) (hq : 0 < c.qref) (en : α) (hen : 0 < en) (T d z bf : α) (hT : T ≤ 0 ∨ d ≤ 0) :
+    beamCX E cf wl ex c en T d z bf ≠ Out.val 0 := by
+  obtain ⟨h1, h2⟩ := beamCX_single_point_ignores_arguments S cf wl hcf hwl ex c qe qt qn qz qb hqe hqt hqn hqz hqb
+    p1 p2 p3 p4 p5 hq en hen T d z bf
+  rw [h1]
+  intro h
+  have := Out.val.inj h
+  rw [this] at h2
+  exact lt_irrefl _ h2
+
+
+/-- with an interpolated temperature axis and extrapolation not permitted a non-positive temperature (below every
+positive knot) raises instead of returning zero -/
+theorem beamCX_temperature_outside_raises {E : Ext α} (S : ExtSpec E) (cf wl : α) (c : CXTable α) (h : WFC c)
+    (h2 : 2 ≤ c.ti.length) (en T d z bf l : α) (hen : 0 < en)
+    (heb : interpOrConst E (kindOf Extrap.quadratic false) (c.eb.map E.logc)
+      (c.qeb.map fun y => E.logc (photonToJ cf y wl)) (E.loge en) = some l)
+    (hout : Below c.ti T ∨ Above c.ti T) :
+    beamCX E cf wl false c en T d z bf = Out.valueError := by
+  unfold beamCX
+  simp only []
+  rw [if_neg (not_le.mpr hen), heb]
+  simp only []
+  have : interpOrConst E (kindOf Extrap.nearest false) c.ti (c.qti.map fun y => y / c.qref) T = none := by
+    unfold interpOrConst
+    rw [if_pos (by simp [h.lti.1]; omega)]
+    exact S.i1_outside _ _ _ ⟨h2, by simp [h.lti.1], h.ti⟩ hout
+  rw [this]
+
+
+/-- **range policy, extrapolation permitted** (beam CX): never raises -/
+theorem beamCX_extrapolated_returns {E : Ext α} (S : ExtSpec E) (cf wl : α) (c : CXTable α) (h : WFC c)
+    (en T d z bf : α) : ∃ v, 0 ≤ v ∧ beamCX E cf wl true c en T d z bf = Out.val v := by
+  have e1 := interpOrConst_extrap S (kindOf Extrap.quadratic true) (by decide) (c.eb.map E.logc)
+    (c.qeb.map fun y => E.logc (photonToJ cf y wl)) (E.loge en) (sorted_map_logc S h.eb) (by simp [h.leb.1])
+  have e2 := interpOrConst_extrap S (kindOf Extrap.nearest true) (by decide) c.ti (c.qti.map fun y => y / c.qref) T
+    h.ti (by simp [h.lti.1])
+  have e3 := interpOrConst_extrap S (kindOf Extrap.nearest true) (by decide) c.ni (c.qni.map fun y => y / c.qref) d
+    h.ni (by simp [h.lni.1])
+  have e4 := interpOrConst_extrap S (kindOf Extrap.nearest true) (by decide) c.z (c.qz.map fun y => y / c.qref) z
+    h.z (by simp [h.lz.1])
+  have e5 := interpOrConst_extrap S (kindOf Extrap.nearest true) (by decide) c.b (c.qb.map fun y => y / c.qref) bf
+    h.b (by simp [h.lb.1])
+  obtain ⟨v1, hv1⟩ := Option.isSome_iff_exists.mp e1
+  obtain ⟨v2, hv2⟩ := Option.isSome_iff_exists.mp e2
+  obtain ⟨v3, hv3⟩ := Option.isSome_iff_exists.mp e3
+  obtain ⟨v4, hv4⟩ := Option.isSome_iff_exists.mp e4
+  obtain ⟨v5, hv5⟩ := Option.isSome_iff_exists.mp e5
+  have key : ∀ w, beamCX E cf wl true c en T d z bf = Out.val w → 0 ≤ w :=
+    fun w hw => beamCX_nonneg S cf wl true c en T d z bf w hw
+  have hval : ∃ v, beamCX E cf wl true c en T d z bf = Out.val v := by
+    unfold beamCX
+    simp only []
+    split_ifs
+    · exact ⟨_, rfl⟩
+    · rw [hv1]; simp only []
+      rw [hv2]; simp only []
+      cases clampMul (E.pow10 v1) v2 with
+      | none => exact ⟨_, rfl⟩
+      | some r1 =>
+        simp only []
+        rw [hv3]; simp only []
+        cases clampMul r1 v3 with
+        | none => exact ⟨_, rfl⟩
+        | some r2 =>
+          simp only []
+          rw [hv4]; simp only []
+          cases clampMul r2 v4 with
+          | none => exact ⟨_, rfl⟩
+          | some r3 =>
+            simp only []
+            rw [hv5]; simp only []
+            cases clampMul r3 v5 with
+            | none => exact ⟨_, rfl⟩
+            | some r4 => exact ⟨_, rfl⟩
+  obtain ⟨v, hv⟩ := hval
+  exact ⟨v, key v hv, hv⟩
+
+
+/-! ## accessor policy: general theorems about `Policy.run` for an *arbitrary* accessor descriptor
+
+`Props/C07Table.lean` shows which of the generated descriptors are `Uniform`; these theorems say what uniformity buys
+(the property's missing-data / isotope / wavelength clauses) and what each kind of deviation causes. -/
+
+section policy
+
+open Cherab.Rates.Policy
+
+
+/-- **missing data**: a uniform accessor raises `RuntimeError`, or, if null rates were requested, returns its Null
+rate (zero everywhere by `null_rate_zero` / `null_classes_zero`) -/
+theorem missing_policy (sigs : List NullSig) (w : WavelengthPolicy) (a : Accessor) (c : Call)
+    (hu : Uniform sigs a = true) (hmiss : c.stored.contains (keyOf a c) = false) :
+    run sigs w a c = if c.nullRequested then Result.null a.nullInList else Result.raises "RuntimeError" := by
+  obtain ⟨hr, hh, hc, hn, _, _, _⟩ := uniform_unpack hu
+  unfold run
+  simp only [hr, hh, hmiss, hc, hn, Bool.not_true, Bool.or_self, Bool.false_eq_true, if_false, Bool.not_false, if_true]
+  have : catchesRuntimeError ["RuntimeError"] = true := by decide
+  rw [this]
+  simp
+
+
+/-- **isotopes are served from the element's rates**: every symbol in the repository key of a uniform accessor is the
+*element* symbol of one of the species arguments -/
+theorem uniform_reads_element (sigs : List NullSig) (a : Accessor) (c : Call) (hu : Uniform sigs a = true)
+    (hc : ∀ sp ∈ c.species, sp.param ∈ a.species) :
+    ∀ s ∈ keyOf a c, ∃ sp ∈ c.species, s = sp.elemSym := by
+  obtain ⟨_, _, _, _, hraw, _, _⟩ := uniform_unpack hu
+  intro s hs
+  unfold keyOf at hs
+  obtain ⟨x, hx, hsym⟩ := List.mem_filterMap.mp hs
+  cases x with
+  | raw p =>
+    simp only [symOf, Option.map_eq_some_iff] at hsym
+    obtain ⟨sp, hf, _⟩ := hsym
+    have hmem : sp ∈ c.species := List.mem_of_find?_eq_some hf
+    have hp : sp.param = p := by simpa using List.find?_some hf
+    have := hraw _ hx p rfl
+    have hin := hc sp hmem
+    rw [hp] at hin
+    simp [hin] at this
+  | elem p =>
+    simp only [symOf, Option.map_eq_some_iff] at hsym
+    obtain ⟨sp, hf, hs'⟩ := hsym
+    exact ⟨sp, List.mem_of_find?_eq_some hf, hs'.symm⟩
+  | other o => simp [symOf] at hsym
+
+
+/-- … and every species argument contributes (its element) to the key -/
+theorem uniform_key_covers_species (sigs : List NullSig) (a : Accessor) (c : Call) (hu : Uniform sigs a = true)
+    (sp : Sp) (hf : findSp c sp.param = some sp) (hp : sp.param ∈ a.species) : sp.elemSym ∈ keyOf a c := by
+  obtain ⟨_, _, _, _, _, hel, _⟩ := uniform_unpack hu
+  unfold keyOf
+  exact List.mem_filterMap.mpr ⟨Src.elem sp.param, hel _ hp, by simp [symOf, hf]⟩
+
+
+/-- **wavelength of the requested species**: for a uniform accessor of a photon coefficient under the documented
+`wavelength` method, the conversion uses the requested species' own wavelength when stored, the element's only for an
+isotope with `wavelength_element_fallback`, and otherwise the call raises `RuntimeError` -/
+theorem uniform_wavelength_requested (sigs : List NullSig) (w : WavelengthPolicy) (a : Accessor) (c : Call)
+    (wc : WlCall) (p : String) (sp : Sp) (hu : Uniform sigs a = true) (hw : WlUniform w = true)
+    (hwl : a.wl = some wc) (hsp : wc.species = Src.raw p) (hf : findSp c p = some sp)
+    (hpres : c.stored.contains (keyOf a c) = true) :
+    run sigs w a c =
+      if c.wlStored.contains sp.sym then Result.rate (keyOf a c) (some sp.sym) a.rateInList
+      else if sp.isIsotope && c.wlFallback && c.wlStored.contains sp.elemSym then
+        Result.rate (keyOf a c) (some sp.elemSym) a.rateInList
+      else Result.raises "RuntimeError" := by
+  obtain ⟨hr, hh, _, _, _, _, _⟩ := uniform_unpack hu
+  simp only [WlUniform, Bool.and_eq_true] at hw
+  obtain ⟨⟨⟨⟨wr, wg⟩, wcg⟩, wf⟩, wp⟩ := hw
+  have wcg' : w.caught = ["RuntimeError"] := eq_of_beq wcg
+  have hcatch : catchesRuntimeError ["RuntimeError"] = true := by decide
+  unfold run
+  simp only [hr, hh, hpres, hwl, Bool.not_true, Bool.or_self, Bool.false_eq_true, if_false]
+  unfold wavelengthLookup
+  simp only [wr, wp, hsp, hf, wg, wcg', hcatch, wf, Bool.not_true, Bool.or_self, Bool.false_eq_true, if_false,
+    Bool.true_and, if_true]
+  by_cases h1 : sp.sym ∈ c.wlStored <;> by_cases h2 : sp.isIsotope = true <;> by_cases h3 : c.wlFallback = true <;>
+    by_cases h4 : sp.elemSym ∈ c.wlStored <;> simp [h1, h2, h3, h4]
+
+
+/-- a uniform accessor that converts photons asks for the wavelength of a species *as requested* -/
+theorem uniform_wl_raw (sigs : List NullSig) (a : Accessor) (wc : WlCall) (hu : Uniform sigs a = true)
+    (hwl : a.wl = some wc) : ∃ p, wc.species = Src.raw p ∧ a.species.contains p = true := by
+  simp only [Uniform, Bool.and_eq_true, hwl] at hu
+  obtain ⟨⟨_, hw⟩, _⟩ := hu
+  cases hs : wc.species with
+  | raw p => rw [hs] at hw; exact ⟨p, rfl, hw⟩
+  | elem p => rw [hs] at hw; simp at hw
+  | other o => rw [hs] at hw; simp at hw
+
+
+/-- deviation 1 (today: `recombination_pec`): an `except` clause that does not catch `RuntimeError` lets the
+repository's error through even when null rates were requested -/
+theorem wrong_except_clause_defeats_null (sigs : List NullSig) (w : WavelengthPolicy) (a : Accessor) (c : Call)
+    (hr : a.recognised = true) (hh : a.handlerStd = true) (hc : catchesRuntimeError a.caught = false)
+    (hmiss : c.stored.contains (keyOf a c) = false) : run sigs w a c = Result.raises "RuntimeError" := by
+  have hm : keyOf a c ∉ c.stored := by simpa using hmiss
+  unfold run
+  simp [hr, hh, hm, hc]
+
+
+/-- deviation 2 (today: `beam_cx_pec`): a Null constructor called with an argument list its class rejects turns a
+null request into a `TypeError` -/
+theorem bad_null_arity_raises_typeerror (sigs : List NullSig) (w : WavelengthPolicy) (a : Accessor) (c : Call)
+    (hr : a.recognised = true) (hh : a.handlerStd = true) (hc : catchesRuntimeError a.caught = true)
+    (hn : nullArity sigs a.nullClass a.nullArgs.length = false) (hnull : c.nullRequested = true)
+    (hmiss : c.stored.contains (keyOf a c) = false) : run sigs w a c = Result.raises "TypeError" := by
+  have hm : keyOf a c ∉ c.stored := by simpa using hmiss
+  unfold run
+  simp [hr, hh, hm, hc, hn, hnull]
+
+
+/-- deviation 3 (today: `thermal_cx_pec`): when the wavelength is requested for the *element* of an argument, an
+isotope's own stored wavelength is never used — the element's is, or the call raises although the isotope's exists -/
+theorem element_wavelength_ignores_isotope (sigs : List NullSig) (w : WavelengthPolicy) (a : Accessor) (c : Call)
+    (wc : WlCall) (p : String) (sp : Sp) (hr : a.recognised = true) (hh : a.handlerStd = true)
+    (wr : w.recognised = true) (wp : w.plainUsesRaw = true) (hwl : a.wl = some wc) (hsp : wc.species = Src.elem p)
+    (hf : findSp c p = some sp) (hpres : c.stored.contains (keyOf a c) = true) :
+    run sigs w a c = if c.wlStored.contains sp.elemSym then Result.rate (keyOf a c) (some sp.elemSym) a.rateInList
+      else Result.raises "RuntimeError" := by
+  unfold run
+  simp only [hr, hh, hpres, hwl, Bool.not_true, Bool.or_self, Bool.false_eq_true, if_false]
+  unfold wavelengthLookup
+  simp only [wr, wp, hsp, hf, Bool.not_true, Bool.or_self, Bool.false_eq_true, if_false]
+  by_cases h : sp.elemSym ∈ c.wlStored <;> simp [h]
+
+
+end policy
+
+
+/-! ## Non-vacuity: the hypotheses are satisfiable
+
+`ExtSpec` is realised over ℝ by `10 ^ x`, `Real.logb 10` and a "look the knot up" interpolant (value at a knot, 0
+elsewhere, `none` outside the knot range iff the extrapolation type is 'none').  The theorems above are then applied
+to concrete tables. -/
+
+section nonvacuity
+
+open Classical
+
+
+/-- a concrete 2×2 table -/
+def exTable : Table2 ℝ := ⟨[1, 10], [2, 20], [[3, 4], [5, 6]]⟩
+
+
+theorem exTable_wf : WF2 exTable := by
+  refine ⟨⟨?_, ?_⟩, ⟨?_, ?_⟩, rfl, ?_, ?_⟩
+  · simp [Sorted, exTable]
+  · intro x hx; simp [exTable] at hx; rcases hx with rfl | rfl <;> norm_num
+  · simp [Sorted, exTable]; norm_num
+  · intro x hx; simp [exTable] at hx; rcases hx with rfl | rfl <;> norm_num
+  · intro r hr; simp [exTable] at hr; rcases hr with rfl | rfl <;> rfl
+  · intro r hr y hy
+    simp [exTable] at hr
+    rcases hr with rfl | rfl <;> simp at hy <;> rcases hy with rfl | rfl <;> norm_num
+
+
+/-- table reproduction on the concrete table: grid point (10, 2) ↦ stored value 5 (no photon conversion) … -/
+example : grid2 (realExt 0) 1 none Extrap.nearest false exTable 10 2 = Out.val 5 :=
+  grid2_at_knot' (realExt_spec 0) realExt_logAgree 1 none one_pos (by simp) Extrap.nearest false exTable exTable_wf
+    (by simp [exTable]) (by simp [exTable]) 1 0 10 2 5 [5, 6] rfl rfl rfl rfl
+
+
+/-- … and with the photon conversion `x · cf / λ` -/
+example : grid2 (realExt 0) 3 (some 2) Extrap.nearest true exTable 1 20 = Out.val (4 * 3 / 2) := by
+  rw [← conv_photon]
+  exact grid2_at_knot' (realExt_spec 0) realExt_logAgree 3 (some 2) (by norm_num) (by simp) Extrap.nearest true exTable
+    exTable_wf (by simp [exTable]) (by simp [exTable]) 0 1 1 20 4 [3, 4] rfl rfl rfl rfl
+
+
+/-- the float gap hypothesis is satisfiable: with `evaluate`'s log10 one unit below the constructor's, the first
+grid point raises although the contract of every external function holds -/
+example : grid2 (realExt 1) 1 none Extrap.nearest false exTable 1 2 = Out.valueError :=
+  grid2_edge_knot_raises (realExt_spec 1) 1 none Extrap.nearest exTable exTable_wf (by simp [exTable])
+    (by simp [exTable]) 1 2 (by norm_num) rfl (by simp [realExt])
+
+
+/-- below the range without extrapolation: raises; with: returns -/
+example : grid2 (realExt 0) 1 none Extrap.linear false exTable (1 / 2) 2 = Out.valueError :=
+  grid2_below_density_range_raises (realExt_spec 0) realExt_logAgree 1 none Extrap.linear exTable exTable_wf
+    (by simp [exTable]) (by simp [exTable]) (1 / 2) 2 1 (by norm_num) (by norm_num) rfl (by norm_num)
+
+
+example : ∃ v, 0 < v ∧ grid2 (realExt 0) 1 none Extrap.linear true exTable (1 / 2) 2 = Out.val v :=
+  grid2_extrapolated_returns (realExt_spec 0) 1 none Extrap.linear (by decide) exTable exTable_wf (by simp [exTable])
+    (by simp [exTable]) (1 / 2) 2 (by norm_num) (by norm_num)
+
+
+/-- beam coefficient with a single-point energy axis (the `IsoMapper2D(Arg2D('y'), Interpolator1DArray)` branch):
+`sen · st / sref` at the grid point (5, 10, 20) -/
+def exBeam : BeamTable ℝ := ⟨[5], [1, 10], [2, 20], [[3, 4]], [6, 8], 2⟩
+
+
+theorem exBeam_wf : WFB exBeam := by
+  refine ⟨⟨by simp [Sorted, exBeam], ?_⟩, ⟨by simp [Sorted, exBeam], ?_⟩, ⟨by simp [Sorted, exBeam]; norm_num, ?_⟩,
+    by simp [exBeam], by simp [exBeam], by simp [exBeam], rfl, ?_, rfl, ?_, ?_, by simp [exBeam]⟩
+  · intro x hx; simp [exBeam] at hx; subst hx; norm_num
+  · intro x hx; simp [exBeam] at hx; rcases hx with rfl | rfl <;> norm_num
+  · intro x hx; simp [exBeam] at hx; rcases hx with rfl | rfl <;> norm_num
+  · intro r hr; simp [exBeam] at hr; subst hr; rfl
+  · intro r hr y hy; simp [exBeam] at hr; subst hr; simp at hy; rcases hy with rfl | rfl <;> norm_num
+  · intro y hy; simp [exBeam] at hy; rcases hy with rfl | rfl <;> norm_num
+
+
+example : beam (realExt 0) 1 none false exBeam 5 10 20 = Out.val (4 * 8 / 2) :=
+  beam_at_knot (realExt_spec 0) 1 none one_pos (by simp) false exBeam exBeam_wf 0 1 1 5 10 20 4 8 [3, 4]
+    rfl rfl rfl rfl rfl rfl (by simp [realExt]) (by simp [realExt]) (by simp [realExt])
+
+
+/-- beam CX with single-point axes: a non-positive temperature and density do *not* give zero -/
+def exCX : CXTable ℝ := ⟨[1], [1], [1], [1], [1], [2], [3], [5], [7], [11], 1⟩
+
+
+example : beamCX (realExt 0) 1 1 true exCX 1 (-1) 0 1 1 ≠ Out.val 0 :=
+  beamCX_not_zero_on_nonpositive_temperature (realExt_spec 0) 1 1 one_pos one_pos true exCX 2 3 5 7 11 rfl rfl rfl rfl
+    rfl (by norm_num) (by norm_num) (by norm_num) (by norm_num) (by norm_num) (by simp [exCX]) 1 one_pos (-1) 0 1 1
+    (Or.inl (by norm_num))
+
+
+end nonvacuity
+
+
 end Cherab.Props.C07
+
